@@ -67,6 +67,25 @@ def run(chk):
     rule_errors(chk, comp)
     rule_strslice(chk, reach)
     rule_admitted_kinds(chk)
+    rule_elab_total(chk)
+
+
+def rule_elab_total(chk):
+    """The typer's elaboration functions read as tables over operand types (c03 / elabmodel.py): on no combination may
+    the typer reach a panic, an unwrap of a failure or a failing assert, and no accepted node may be one whose type the
+    IR's own typing rule (asked by the exporters) can only answer by aborting."""
+    import c03
+    f = chk.facts
+    sv = c03.abort_survey(f, chk.tier)
+    pe = f.fn("parse_expr_unchecked", "rssl_typer")
+    if sv is None:
+        chk.note("C08.elab: the elaboration tables are not readable on this tree; not evaluated")
+        return
+    total = 0
+    for fam, (cases, msgs) in sorted(sv.items()):
+        total += cases
+        chk.ob("C08.elab/" + fam, not msgs, "%d operand combinations: none aborts" % cases if not msgs else msgs[0], where(pe) if pe else "typer", sample={"family": fam, "cases": cases})
+    chk.floor("C08.floor/elab-cases", total, 20000, "operand combinations read", where(pe) if pe else "typer")
 
 
 def rule_unimpl(chk, reach):
